@@ -48,7 +48,7 @@ T6 == T5 \cup {BadRegex}
 \* ---- C12: specifications with different maximum levels and module sets
 S1 == [f |-> << [n |-> <<"a">>, l |-> 5] >>, d |-> -1, hasre |-> FALSE, re |-> <<>>]       \* max trace
 S2 == [f |-> <<>>, d |-> 1, hasre |-> FALSE, re |-> <<>>]                                  \* max error
-S3 == [f |-> << [n |-> <<"b">>, l |-> 3] >>, d |-> 2, hasre |-> TRUE, re |-> <<"a">>]      \* max info
+S3 == [f |-> << [n |-> <<"b">>, l |-> 3] >>, d |-> 2, hasre |-> TRUE, re |-> <<"a", "b">>] \* max info
 S0 == [f |-> <<>>, d |-> 3, hasre |-> FALSE, re |-> <<>>]
 Set(S)  == [op |-> "Set", spec |-> S]
 PushC(S) == [op |-> "Push", spec |-> S]
